@@ -452,14 +452,14 @@ const PathSlack = 2
 const MaxLeafBytes = 256
 
 // CapacityBelowPath reports whether a cache capacity cannot hold the active root-to-leaf path
-// (depth internal nodes, each possibly with its own leaf, plus the target leaf).
+// (depth internal nodes). Only the node capacity counts: a value capacity below the size of the
+// leaves on the path (even below one leaf) does not reproduce the finding on the unchanged tree, so
+// a failure under a tiny value capacity alone is a violation of its own.
 func CapacityBelowPath(nodeCap, valueCap uint64, depth int) bool {
 	if nodeCap > 0 && nodeCap < uint64(depth+PathSlack) {
 		return true
 	}
-	if valueCap > 0 && valueCap < uint64(depth+PathSlack)*MaxLeafBytes {
-		return true
-	}
+	_ = valueCap
 	return false
 }
 
